@@ -111,7 +111,7 @@ PROPS = {
     },
     "C03": {
         "streams": ["ignore", "pack"],
-        "theorems": "C03_compile_correct (pattern->regexp translation = segment-wise glob specification, all well-formed patterns x all paths, any bytes), C03_negations_after_exact/_over, C03_last_match_wins, C03_dominating_sound, C03_prune_eq_filter (all trees), C03_defaults; on the model of Pack itself: C03_pack_ships_exactly_the_unexcluded (for every file system holding at the source path a tree of regular files, directories, special files and links that stay inside, any depth and width, every option set, working directory and state of the shared flags, and whatever rule set parseIgnoreFile loads: Pack succeeds and writes exactly the entries of the tree whose own path is not excluded - for a directory neither 'd' nor 'd/' -, in order, also below an excluded directory; pruning and the negations-after flags play no part; Slug/PackIgnore.v), C03_loaded_rules_have_sound_flags, C03_keep_is_own_path, C03_nothing_filtered_without_ignore, C03_pack_instance",
+        "theorems": "C03_compile_correct (pattern->regexp translation = segment-wise glob specification, all well-formed patterns x all paths, any bytes), C03_line_meaning + C03_line_rule_matches + C03_unanchored_means_any_depth (what a line of a rule file means: optional '!', optional leading '/', a well-formed pattern, optional trailing '/', any surrounding white space -> one rule, negated iff '!', matching exactly the paths the segment-wise specification matches for the pattern with a '**' segment in front unless anchored and a '**' segment behind for the directory form; Ignore/LineProofs.v), C03_negations_after_exact/_over, C03_last_match_wins, C03_dominating_sound, C03_prune_eq_filter (all trees), C03_defaults; on the model of Pack itself: C03_pack_ships_exactly_the_unexcluded (for every file system holding at the source path a tree of regular files, directories, special files and links that stay inside, any depth and width, every option set, working directory and state of the shared flags, and whatever rule set parseIgnoreFile loads: Pack succeeds and writes exactly the entries of the tree whose own path is not excluded - for a directory neither 'd' nor 'd/' -, in order, also below an excluded directory; pruning and the negations-after flags play no part; Slug/PackIgnore.v), C03_loaded_rules_have_sound_flags, C03_keep_is_own_path, C03_nothing_filtered_without_ignore, C03_pack_instance",
         "assumptions": [
             "modelled, not verified: Go's regexp on the expression shapes rule.compile emits (restated as Ignore/Rules.tmatch), text/scanner, bufio.ScanLines, strings.TrimSpace (ASCII); validated by the ignore stream through the verif hooks",
             "theorem 1 covers patterns of the documented language (each ** a whole segment, no character class, no backslash); character classes [a-z], backslash escapes and non-ASCII patterns are compared by the oracle/implementation only",
@@ -120,7 +120,7 @@ PROPS = {
     },
     "C08": {
         "streams": ["bundle"],
-        "theorems": "C08_build_is_closure (work-list soundness + completeness + cache consistency for all worlds, Add sequences and fuel, by invariants over step/drain/run_ops), C08_registry_resolution_is_cache_independent, C08_relative_inside_package",
+        "theorems": "C08_build_is_closure (work-list soundness + completeness + cache consistency for all worlds, Add sequences and fuel, by invariants over step/drain/run_ops), C08_registry_resolution_is_cache_independent, C08_relative_inside_package, C08_metadata_retrievable (every run: the metadata table holds for each fetched package exactly what the fetcher returned with it, nothing lost or invented)",
         "assumptions": _BUILDER_ASSUME + ["path lookups of the finished bundle (LocalPathFor*) are checked on the implementation by the oracle against a reference closure computed independently in Go; their model is the subject of C18"],
     },
     "C13": {
